@@ -23,11 +23,17 @@
   Specification side: `delete`, `keep`, `scatter`, `nanMeanEntrySpec`, `poolRows`.
   Parameter / contract: the linear solve (`Rsa.Compare.solve` stands in for
   `scipy.sparse.linalg.cg`, `np.linalg.solve`, `np.linalg.inv`).
+  Round 3: `parseOf` (both source copies of the parser, their two `raise` tests are the generated
+  leaves `cmp/utlShapeReject`, `cmp/utlNanReject`; `compareNan*` use the compare.py copy, the fits the
+  rdm_utils.py copy), `nanMeanEntry` ends in the generated `meanRatio`, `rescaleWeights` uses the
+  generated `evidenceWeight` / `setsizeWeight`; `normalEq`, `regressRowsNN`, `fitRegressNN`
+  (`fit_regress_nn` = the same parser and `V` reduction, then C08's active-set loop `Rsa.Fit.nnls`).
   No Mathlib here.
 -/
 import Rsa.Core.Num
 import Rsa.Core.Tri
 import Rsa.Core.Compare
+import Rsa.Core.Fit
 import Rsa.Gen.C13
 
 namespace Rsa.Nan
@@ -104,6 +110,37 @@ def parseCoded (xs ys : List (List (Option α))) :
       else .error .nanpos
   | _, _ => .error .empty
 
+/-- the two source copies of the parser -/
+inductive ParserCopy where
+  | compare   -- `rdm/compare.py:_parse_input_rdms`
+  | utils     -- `util/rdm_utils.py:_parse_nan_vectors` (behind `_parse_input_rdms` there; used by the fitters)
+  deriving DecidableEq, Repr
+
+/-- `if not vector1.shape[1] == vector2.shape[1]: raise` — the test *generated from the source* (1 = raise) -/
+def shapeReject : ParserCopy → Nat → Nat → Nat
+  | .compare => Rsa.Gen.C13.cmpShapeReject
+  | .utils => Rsa.Gen.C13.utlShapeReject
+
+/-- `if not (np.all(m1 == m1[0]) and np.all(m2 == m1[0])): raise` — generated from the source; the
+    arguments say (1 = true) whether every row of stack 1 / stack 2 has the mask of the first RDM of stack 1 -/
+def nanReject : ParserCopy → Nat → Nat → Nat
+  | .compare => Rsa.Gen.C13.cmpNanReject
+  | .utils => Rsa.Gen.C13.utlNanReject
+
+def b2n (b : Bool) : Nat := if b then 1 else 0
+
+/-- the parser of either copy with its two decisions taken from the generated leaves -/
+def parseOf (c : ParserCopy) (xs ys : List (List (Option α))) :
+    Except ParseErr (List (List α) × List (List α) × List Bool) :=
+  match xs, ys with
+  | x0 :: _, y0 :: _ =>
+    if shapeReject c x0.length y0.length = 1 then .error .shape
+    else
+      let m0 := maskOf x0
+      if nanReject c (b2n (allMaskEq m0 xs)) (b2n (allMaskEq m0 ys)) = 1 then .error .nanpos
+      else .ok (reshapeRows xs.length (flatKept xs), reshapeRows ys.length (flatKept ys), m0)
+  | _, _ => .error .empty
+
 /-- the parser before the repair: only the *number* of present entries per row was compared -/
 def parseLegacy (xs ys : List (List (Option α))) :
     Except ParseErr (List (List α) × List (List α) × List Bool) :=
@@ -120,21 +157,21 @@ def parseLegacy (xs ys : List (List (Option α))) :
 /-- `compare(rdm1, rdm2, method)` for a measure `f` on reduced vectors -/
 def compareNan {γ : Type} (f : List α → List α → γ) (xs ys : List (List (Option α))) :
     Except ParseErr (List (List γ)) :=
-  match parseCoded xs ys with
+  match parseOf .compare xs ys with
   | .ok (a, b, _) => .ok (compareAll f a b)
   | .error e => .error e
 
 /-- whitened measures, slow path: `V[nan_idx][:, nan_idx]` -/
 def compareNanV {γ : Type} (f : List (List α) → List α → List α → γ) (V : List (List α))
     (xs ys : List (List (Option α))) : Except ParseErr (List (List γ)) :=
-  match parseCoded xs ys with
+  match parseOf .compare xs ys with
   | .ok (a, b, m) => .ok (compareAll (f (subBlock m V)) a b)
   | .error e => .error e
 
 /-- fast path (`sigma_k=None`): the measure also receives the mask -/
 def compareNanM {γ : Type} (f : List Bool → List α → List α → γ)
     (xs ys : List (List (Option α))) : Except ParseErr (List (List γ)) :=
-  match parseCoded xs ys with
+  match parseOf .compare xs ys with
   | .ok (a, b, m) => .ok (compareAll (f m) a b)
   | .error e => .error e
 
@@ -193,16 +230,18 @@ def mulO [Mul α] : Option α → Option α → Option α
 /-- `np.nansum` -/
 def nansum [Add α] [Zero α] (l : List (Option α)) : α := (l.filterMap id).sum
 
-variable [Add α] [Mul α] [Div α] [Zero α]
+variable [Add α] [Sub α] [Mul α] [Div α] [Neg α] [Zero α] [One α] [NatCast α]
+  [LT α] [DecidableLT α] [LE α] [DecidableLE α] [Max α] [Min α]
 
 /-- one entry of `_mean` as coded; the column holds (value, weight) of every RDM.
     `weights[isnan(vectors)] = nan`; `nansum(vectors*weights) / nansum(weights)`;
-    `0/0` (no RDM contributes) is NaN. -/
+    `0/0` (no RDM contributes) is NaN.  The final quotient is the generated leaf `meanRatio`
+    (`return weighted_sum / np.nansum(weights, axis=0)`). -/
 def nanMeanEntry (col : List (Option α × Option α)) : Option α :=
   let wm : List (Option α) := col.map (fun vw => if vw.1.isSome then vw.2 else none)
   let prod : List (Option α) := List.zipWith mulO (col.map (·.1)) wm
   if wm.all (fun w => !w.isSome) then none
-  else some (nansum prod / nansum wm)
+  else some (Rsa.Gen.C13.meanRatio (nansum prod) (nansum wm))
 
 /-- the *specification*: Σ_{i present} w_i v_i / Σ_{i present} w_i, NaN when nobody is present -/
 def nanMeanEntrySpec (col : List (Option α × Option α)) : Option α :=
@@ -223,8 +262,6 @@ def nanMean (vs : List (List (Option α))) (ws : List (List (Option α))) : List
   | v0 :: _ =>
     (List.range v0.length).map (fun k => nanMeanEntry (colAt k (List.zipWith List.zip vs ws)))
 
-variable [One α]
-
 /-- `weights=None`: ones -/
 def onesLike (vs : List (List (Option α))) : List (List (Option α)) :=
   vs.map (fun v => v.map (fun _ => some (1 : α)))
@@ -238,8 +275,8 @@ end mean
 /-! ## 5. rescaling partial RDMs (`_ss`, `_scale`, `_rescale`) -/
 
 section rescale
-variable {α : Type} [Add α] [Sub α] [Mul α] [Div α] [Zero α] [One α] [NatCast α]
-  [LT α] [DecidableLT α] [HasSqrt α]
+variable {α : Type} [Add α] [Sub α] [Mul α] [Div α] [Neg α] [Zero α] [One α] [NatCast α]
+  [LT α] [DecidableLT α] [LE α] [DecidableLE α] [Max α] [Min α] [HasSqrt α]
 
 /-- `_ss`: `nansum(v**2)` -/
 def ssO (v : List (Option α)) : α := nansum (v.map (fun o => o.map (fun a => a * a)))
@@ -260,14 +297,13 @@ inductive RescaleMethod where
   | evidence | setsize | simple
   deriving DecidableEq, Repr
 
-/-- the weights of the three methods (NaN where the dissimilarity is missing) -/
+/-- the weights of the three methods (NaN where the dissimilarity is missing); the evidence clip and
+    the set-size quotient are the generated leaves `evidenceWeight`, `setsizeWeight` -/
 def rescaleWeights (m : RescaleMethod) (dissim : List (List (Option α))) : List (List (Option α)) :=
   dissim.map (fun row => row.map (fun o => o.map (fun d =>
     match m with
-    | .evidence =>
-      let c : α := ((2 : Nat) : α) / ((10 : Nat) : α) * (((2 : Nat) : α) / ((10 : Nat) : α))
-      if d * d < c then c else d * d
-    | .setsize => (1 : α) / ((count row : Nat) : α)
+    | .evidence => Rsa.Gen.C13.evidenceWeight d                              -- `(dissim ** 2).clip(0.2 ** 2)`
+    | .setsize => Rsa.Gen.C13.setsizeWeight ((count row : Nat) : α)          -- `1 / setsize`
     | .simple => 1)))
 
 /-- one pass of the `while` body: aligned rows and the next estimate -/
@@ -479,10 +515,12 @@ inductive FitMethod where
   | cosine | corr | cosineCov | corrCov
   deriving DecidableEq, Repr
 
-/-- normal equations on reduced vectors: `A` = model RDMs (rows), `y` = pooled data,
-    `V` = `None` or the (already reduced) covariance -/
-def regressRows (m : FitMethod) (V : Option (List (List α))) (ridge : α)
-    (A : List (List α)) (y : List α) : List α :=
+/-- the normal equations on reduced vectors: `A` = model RDMs (rows), `y` = pooled data,
+    `V` = `None` or the (already reduced) covariance.  Returns `X = A V⁻¹ Aᵀ + ridge·I`
+    (`vectors @ v_inv_x.T + ridge_weight * np.eye(k)`; `ATA` of `_nn_least_squares`) and
+    `b = A V⁻¹ y` (`v_inv_x @ y.T`; `y_V_A`) -/
+def normalEq (m : FitMethod) (V : Option (List (List α))) (ridge : α)
+    (A : List (List α)) (y : List α) : List (List α) × List α :=
   let A := if m = .corr ∨ m = .corrCov then A.map center else A
   let y := if m = .corrCov then center y else y
   let VA := match V with
@@ -491,7 +529,21 @@ def regressRows (m : FitMethod) (V : Option (List (List α))) (ridge : α)
   let X := (List.range A.length).map (fun i => (List.range A.length).map (fun j =>
     dot (A.getD i []) (VA.getD j []) + (if i = j then ridge else 0)))
   let b := VA.map (fun r => dot r y)
-  solve X b
+  (X, b)
+
+/-- `fit_regress`: `np.linalg.solve(X, y)` -/
+def regressRows (m : FitMethod) (V : Option (List (List α))) (ridge : α)
+    (A : List (List α)) (y : List α) : List α :=
+  solve (normalEq m V ridge A y).1 (normalEq m V ridge A y).2
+
+/-- `fit_regress_nn`: `_nn_least_squares(vectors.T, y[0], ridge_weight, V)` — the active-set loop of
+    C08's model (`Rsa.Fit.nnls`: only coefficients fixed at zero may enter, threshold
+    `eps · max|b|`, at most `3k` outer passes) on the same normal equations.  The Boolean says
+    whether the loop ended through its own test. -/
+def regressRowsNN (eps : α) (m : FitMethod) (V : Option (List (List α))) (ridge : α)
+    (A : List (List α)) (y : List α) : List α × Bool :=
+  let r := Rsa.Fit.nnls eps (normalEq m V ridge A y).1 (normalEq m V ridge A y).2
+  (r.1, r.2.2)
 
 /-- `theta / sqrt(sum(theta**2))` unless the norm is zero -/
 def normalizeTheta (t : List α) : List α :=
@@ -501,7 +553,7 @@ def normalizeTheta (t : List α) : List α :=
 /-- `fit_regress` after pooling: parse (model vectors, pooled data), reduce `V`, solve -/
 def fitRegress (m : FitMethod) (V : List (List α)) (ridge : α) (normalize : Bool)
     (A : List (List (Option α))) (y : List (Option α)) : Except ParseErr (List α) :=
-  match parseCoded A [y] with
+  match parseOf .utils A [y] with
   | .ok (a, b, mask) =>
     let v := if m = .cosineCov ∨ m = .corrCov then some (subBlock mask V) else none
     let t := regressRows m v ridge a (b.headD [])
@@ -509,6 +561,23 @@ def fitRegress (m : FitMethod) (V : List (List α)) (ridge : α) (normalize : Bo
   | .error e => .error e
 
 end regress
+
+section regressNN
+variable {α : Type} [Add α] [Sub α] [Mul α] [Div α] [Zero α] [One α] [NatCast α]
+  [LT α] [DecidableLT α] [HasSqrt α]
+
+/-- `fit_regress_nn` after pooling: the same parser and `V` reduction as `fit_regress`, then
+    the non-negative least-squares loop -/
+def fitRegressNN (eps : α) (m : FitMethod) (V : List (List α)) (ridge : α) (normalize : Bool)
+    (A : List (List (Option α))) (y : List (Option α)) : Except ParseErr (List α × Bool) :=
+  match parseOf .utils A [y] with
+  | .ok (a, b, mask) =>
+    let v := if m = .cosineCov ∨ m = .corrCov then some (subBlock mask V) else none
+    let t := regressRowsNN eps m v ridge a (b.headD [])
+    .ok (if normalize then normalizeTheta t.1 else t.1, t.2)
+  | .error e => .error e
+
+end regressNN
 
 /-! ## 8. pattern bootstrap on a condensed vector (`RDMs.subsample_pattern`) -/
 
